@@ -215,20 +215,62 @@ def check_replay(rep, prog, ci, hb, raw, R):
 
 
 # ------------------------------------------------------------------------------------------------ C05.3
+HASHED_COLL = '_hashed_sp'       # the collection of parsed hashed subpackets (the same name C02.5 reads the built area from)
+
+
+def _touches_hashed(s, obj):
+    """Does this path change the hashed subpacket collection of `obj` (item store, rebinding, mutating call, delete)?"""
+    coll = '%s.%s' % (obj, HASHED_COLL)
+    for e in s.events:
+        if e[0] == 'store' and (e[1] == coll or e[1].startswith(coll + '[')):
+            return True
+        if e[0] == 'del' and e[1].startswith(coll):
+            return True
+        if e[0] == 'call' and e[1].startswith(coll + '.') and e[1].split('.')[-1] in (
+                'pop', 'popitem', 'clear', 'update', 'setdefault', 'move_to_end', '__setitem__', '__delitem__'):
+            return True
+    return False
+
+
+def _only_inlined_helper(prog, fn):
+    """A new private helper whose every call site was inlined by the canonicaliser: its body is judged where it was inlined."""
+    inl = set(c for c, host in (getattr(prog, 'canon_inlined', None) or []))
+    if fn.name not in inl:
+        return False
+    for g in prog.all_functions():
+        for n in ast.walk(g.node):
+            if isinstance(n, ast.Call) and ((isinstance(n.func, ast.Attribute) and n.func.attr == fn.name) or
+                                            (isinstance(n.func, ast.Name) and n.func.id == fn.name)):
+                return False
+            if isinstance(n, ast.Attribute) and n.attr == fn.name and not isinstance(getattr(n, 'ctx', None), ast.Store) and g is not fn:
+                return False
+    return True
+
+
 def check_other_stores(rep, prog, ci, raw):
     sites = _attr_store_sites(prog, raw)
     cp = ci.methods.get('__copy__')
     for fn in sites:
         if fn.cls is ci and fn.name == 'parse':
             continue        # C05.1
-        if fn is cp:
+        if fn is cp or _only_inlined_helper(prog, fn):
             continue
         n = 0
         for s in Interp(prog, Scenario(inline=noinline, join_unknown=False)).run(fn):
-            for p, v, l, _ in _stores_to(s, raw):
+            sts = _stores_to(s, raw)
+            for p, v, l, _ in sts:
                 n += 1
                 rep.check(v == 'None', 'C05.3', fn.qualname, '%s = %s' % (p, v),
                           'outside parse and __copy__ the capture may only be reset to None', where='%s:%d' % (fn.module.relpath, l), found='%s = %s' % (p, v))
+            # a reset loses the received octets for good: it is legitimate only where the hashed subpackets themselves change on
+            # the same path (and in the initial state); anywhere else a received signature would silently fall back to re-encoding
+            if sts and fn.name != '__init__' and s.raised is None:
+                objs = sorted(set(p[:-len(raw) - 1] for p, v, l, _ in sts))
+                bad = [o for o in objs if not _touches_hashed(s, o)]
+                rep.check(not bad, 'C05.3', fn.qualname, 'resets the capture of %s, hashed subpackets unchanged' % bad,
+                          'the received octets are dropped on a path that does not change the hashed subpackets: a received '
+                          'signature passing through here is afterwards hashed from a re-encoding', where=fn.where,
+                          expected='reset only together with a change of %s' % HASHED_COLL, found='decisions %s' % [(f[0], f[1]) for f in s.facts])
         if n == 0:
             raise AnalysisError('%s writes %s in a way the interpreter does not see' % (fn.qualname, raw))
     # __copy__ carries a copy of the octets
@@ -245,6 +287,12 @@ def check_other_stores(rep, prog, ci, raw):
                 vals = [(v, val) for p, v, l, val in _stores_to(s, raw) if p == tgt]
                 if present:
                     ok = len(vals) >= 1 and uncopy(vals[-1][1] if vals[-1][1] is not None else Sym(vals[-1][0])) == (R, True)
+                    # filing a hashed subpacket through the mapping interface of the copy resets its capture: none after the store
+                    last = max([i for i, e in enumerate(s.events) if e[0] == 'store' and e[1] == tgt] + [-1])
+                    refiled = [e[1] for e in s.events[last + 1:] if e[0] == 'store' and e[1].startswith(render(s.ret) + '[') and
+                               ('h_' in e[1] or not re.search(r"\['\w+'\]$", e[1]))]
+                    refiled += [e[1] for e in s.events[last + 1:] if e[0] == 'call' and e[1] in (render(s.ret) + '.addnew', render(s.ret) + '.__setitem__')]
+                    ok = ok and not refiled
                     rep.check(ok, 'C05.3', 'SubPackets.__copy__', 'carries %s: %s' % (raw, [v for v, _ in vals]),
                               'a copied signature (e.g. in a derived public key) must verify over the same received octets: '
                               'a copy of a signature must carry the received octets (as a copy)', where=cp.where,
